@@ -85,7 +85,7 @@ def tpl_map(size, conc, stars, L, bad, cb, x2, a2, x3, a3, t, _twin=False):
             if not code and r["pulled"] != L:
                 code = 505
         if _twin and not code and not w.excluded:
-            if len(w.W) >= 3 and w.peak >= 2 and r.get("exhausted"):
+            if len(w.W) >= 2 and w.peak >= 2 and r.get("exhausted"):
                 code = 77
         return code
     finally:
@@ -112,8 +112,14 @@ def families(tier):
     else:
         fams.append(Family(
             name="inter", fn="tpl_map", params=P,
-            pre=["size >= 0", "conc >= 1", "0 <= stars <= 2", "L == 3", "-1 <= bad <= 1", "0 <= cb <= 3",
+            pre=["size >= 0", "conc >= 1", "0 <= stars <= 2", "L == 3", "bad == -1", "cb == 1",
                  "0 <= x2 < %d" % NOP, "a2 >= -1", "0 <= x3 <= %d" % NOP, "a3 >= -1", "t >= 0"],
-            parts=parts_product(stars=range(3), bad=(-1, 1), cb=(1, 3), x2=range(NOP), x3=range(NOP + 1)),
-            twin_pre=["cb == 1", "x2 == 0", "x3 == 2", "stars == 0", "bad == -1"], twin_args=[2, 2, 0, 3, -1, 1, 0, 0, 2, 1, 9]))
+            parts=parts_product(stars=range(3), x2=range(NOP), x3=range(NOP + 1)),
+            twin_pre=["x2 == 0", "x3 == 2", "stars == 0"], twin_args=[2, 2, 0, 3, -1, 1, 0, 0, 2, 1, 9]))
+        fams.append(Family(
+            name="bad", fn="tpl_map", params=P,
+            pre=["size >= 0", "1 <= conc <= 2", "0 <= stars <= 2", "L == 3", "0 <= bad <= 2", "cb == 3",
+                 "0 <= x2 < %d" % NOP, "a2 >= -1", "x3 == %d" % NOP, "a3 == 0", "t >= 4"],
+            parts=parts_product(stars=range(3), bad=range(3)),
+            twin_pre=["x2 == 0", "stars == 0", "bad == 2"], twin_args=[3, 2, 0, 3, 2, 3, 0, 0, NOP, 0, 9]))
     return fams
